@@ -148,25 +148,8 @@ theorem C03_xrat_division_facts :
 theorem C03_div_sparse_xrat (A B : Sparse XRat) (hA : A.WF) (hB : B.WF) (hs : A.shape = B.shape)
     (hfa : ∀ x ∈ A.vals, ∃ q : Rat, x = .fin q) (hfb : ∀ y ∈ B.vals, ∃ q : Rat, y = .fin q) :
     ∃ R, div .nan A (.sparse B) = .ok R ∧ R.WF ∧ R.shape = A.shape ∧
-      ∀ i, InBounds A.shape i → R.get i = A.get i / B.get i := by
-  refine div_sparse_spec .nan A B hA hB hs XRat.zero_div_zero ?_ XRat.nan_ne_zero ?_
-  · intro y hy
-    obtain ⟨q, rfl⟩ := hfb y hy
-    have : q ≠ 0 := fun h => by
-      have := hB.nz _ hy
-      rw [h] at this
-      exact (by simpa using this : ¬ XRat.fin 0 = 0) XRat.zero_def.symm
-    exact XRat.zero_div_fin q this
-  · intro x hx y hy
-    obtain ⟨p, rfl⟩ := hfa x hx
-    have hp : p ≠ 0 := fun h => by
-      have := hA.nz _ hx
-      rw [h] at this
-      exact (by simpa using this : ¬ XRat.fin 0 = 0) XRat.zero_def.symm
-    rcases hy with hy | hy
-    · obtain ⟨q, rfl⟩ := hfb y hy
-      exact XRat.fin_div_fin_ne_zero p q hp
-    · rw [hy]; exact XRat.fin_div_fin_ne_zero p 0 hp
+      ∀ i, InBounds A.shape i → R.get i = A.get i / B.get i :=
+  div_sparse_xrat A B hA hB hs hfa hfb
 
 /-! ### logical operations -/
 
